@@ -56,6 +56,11 @@ def wrap_exits(ctx, rep, rule, what):
                   fn, "exit[fall-off] with the slot held", what, trace(st))
     for st, kind, node in out.exc:
         n += 1
+        if kind[0] == 'BodyExc' and st.a('slot', 'Free') == 'Held' and _critical_fact(ctx, st) is True:
+            # a critical job failed: the scheduler aborts and discards this window, and keeping the
+            # slot is what stops a queued job from starting in the meantime (R05.6)
+            rep.ok(rule, "%s exit by the failure of a critical job (slot kept on purpose)" % ip.where(node))
+            continue
         rep.check(st.a('slot', 'Free') != 'Held', rule,
                   "%s exit by %s" % (ip.where(node), kind_name(kind)),
                   fn, "exit[%s] out of `%s` with the slot held" % (kind[0], src(node)),
@@ -65,6 +70,41 @@ def wrap_exits(ctx, rep, rule, what):
                   trace(st))
     rep.need(rule, n, 3, "exits of the wrapper")
     return an, ip, out
+
+
+def _critical_fact(ctx, st):
+    """what the path knows about `the wrapped job is critical`"""
+    j = T.mk(('var', ctx.roles.wrap_jobvar))
+    keys = (T.mk(('mcall', j, 'is_critical', (), ())), T.mk(('attr', j, 'critical')))
+    for k in keys:
+        if k in st.facts:
+            return st.facts[k]
+    c = st.a('crit')
+    if c is not None and c[0] in keys:
+        return c[1]
+    return None
+
+
+def no_handover_on_critical_failure(ctx, rep, rule):
+    """R05.6: when the body of a *critical* job raises, its slot is not handed to a queued job
+    before the scheduler has had a chance to abort"""
+    r = ctx.roles
+    an, ip, out = ctx.wrap(gen_cancel=True, gen_bodyexc=True)
+    fn = r.WRAP.qualname
+    n = 0
+    for st, kind, node in out.exc:
+        if kind[0] != 'BodyExc' or not st.a('acqs', 0):
+            continue
+        n += 1
+        released = st.a('slot', 'Free') != 'Held'
+        crit = _critical_fact(ctx, st)
+        rep.check(not released or crit is False, rule,
+                  "%s slot not released when a critical job fails" % ip.where(node), fn,
+                  "exit[BodyExc] out of `%s` gives the slot back %s" % (
+                      src(node), "whether or not the job is critical" if crit is None else "although the job is critical"),
+                  "a job queued for the slot starts its body after a critical job has raised and before the "
+                  "scheduler reacts: `boom`, `start q`, `cancel q`", trace(st))
+    rep.need(rule, n, 1, "job-exception exits of the wrapper")
 
 
 def wrap_typestate(ctx, rep, rule):
